@@ -86,7 +86,10 @@ fn build(t: &mut Tape) -> Built {
             }
             let mut s = vec![Stmt::Data(items)];
             // DATA may share its line with other statements
-            if t.chance(1, 5) {
+            if i + 1 < nlines && t.chance(1, 6) {
+                // behind an unconditional jump: never executed, still part of the data
+                s.insert(0, Stmt::Goto(numbers[i + 1]));
+            } else if t.chance(1, 5) {
                 s.insert(0, Stmt::Let { lv: Lval::Var(Name::new("Z9")), e: lit(1), kw: false });
             } else if t.chance(1, 6) {
                 s.push(print_vars(&["Z9"]));
@@ -144,7 +147,11 @@ fn build(t: &mut Tape) -> Built {
     for (i, s) in stmts_per_line.into_iter().enumerate() {
         prog.lines.push(Line { num: numbers[i], stmts: s });
     }
-    prog.lines.push(Line { num: numbers[nlines], stmts: vec![Stmt::Read(vec![Lval::Var(Name::new("X"))]), print_vars(&["X"]), Stmt::Return] });
+    let mut sub = vec![Stmt::Read(vec![Lval::Var(Name::new("X"))]), print_vars(&["X"]), Stmt::Return];
+    if t.chance(1, 3) {
+        sub.push(Stmt::Data(vec![t.pick(NUM_CONSTS).to_string(), "\"LAST\"".to_string()]));
+    }
+    prog.lines.push(Line { num: numbers[nlines], stmts: sub });
     // END in front of the subroutine: insert into the last main line unless it ends in IF
     let last_main = nlines - 1;
     let ends_if = matches!(prog.lines[last_main].stmts.last(), Some(Stmt::If { .. }));
@@ -243,7 +250,18 @@ fn check_data(t: &mut Tape, ctx: &Ctx) -> Outcome {
     crate::runner::note_case(&case);
     let mut m = Machine::new(&prog);
     let mut labels: Vec<&'static str> = vec![];
-    for d in &directs {
+    let refused_at = if t.chance(1, 2) { Some(1 + t.below(4)) } else { None };
+    for (di, d) in directs.iter().enumerate() {
+        if Some(di) == refused_at {
+            // a DATA statement typed at the prompt is refused and must leave no constants behind
+            let raw = "DATA 888,\"DIRECT\"";
+            term.line(raw, &mut o);
+            let got = flat(&term.take());
+            if !got.contains("ILLEGAL DIRECT") {
+                return Outcome::fail("data-transcript", format!("{:?} at the prompt printed {:?}, expected ?ILLEGAL DIRECT", raw, got), case);
+            }
+            labels.push("a direct DATA was refused between runs");
+        }
         let h = m.direct_line(d);
         let want = std::mem::take(&mut m.out);
         if h == Halt::Budget {
@@ -296,7 +314,7 @@ pub fn property() -> Property {
     Property {
         id: "C09",
         rule: "Cases: proptest-generated programs that are all about DATA: 6-20 lines with DATA lines anywhere (before, between, after the code, behind END, sharing a line with other statements), typed constants (-5, &H10, 1E3, -2.5#, 7%, 12345678, strings), READs into targets of every type incl. array elements, RESTORE, RESTORE n for any line (DATA or not, before/between/after the data), counted READ loops, a reading subroutine, fuel-bounded re-reads, CLEAR mid-program, reading to OUT OF DATA; \
-entered through an edit history (lines typed out of order, earlier versions of DATA lines replaced or deleted and re-added, partial earlier runs, direct READs, an extra DATA line added and removed), then RUN, direct RESTORE/READ from the prompt, RUN n. \
+entered through an edit history (lines typed out of order, earlier versions of DATA lines replaced or deleted and re-added, partial earlier runs, direct READs, an extra DATA line added and removed), DATA behind GOTO n: / RETURN: on the same line, a DATA statement typed (and refused) at the prompt between runs, then RUN, direct RESTORE/READ from the prompt, RUN n. \
 Oracle: reference interpreter on the final listing: one constant list in source order, pointer semantics of RESTORE [n], conversion exactly as assignment (TYPE MISMATCH for a string constant into a numeric target and vice versa), OUT OF DATA past the end; whole transcripts compared. \
 Non-trivial: >= 2 DATA lines not all adjacent, >= 2 READs executed and a RESTORE n or an edit that moved data. Distinct by history + listing.",
         assumptions: vec!["reference interpreter and literal typing rules as in C01/C02 (DESIGN.md Appendix A15)"],
